@@ -906,7 +906,8 @@ Definition target (o : op) : option Z :=
 
 Definition known_in (st : state) (a : id) : Prop := exists s m, members st s = Some m /\ In a m.
 Definition adds (o : op) (a : id) : Prop := match o with Add _ b => a = b | _ => False end.
-Definition writes_tbl (o : op) : bool := match o with SetAttr _ _ _ => true | _ => false end.
+Definition writes_tbl (o : op) : bool :=
+  match o with SetAttr _ _ _ => true | GroupDoSet _ _ _ _ => true | _ => false end.
 
 Definition set_tbl (st : state) (t : table) : state := {| st_tbl := t; st_pool := st_pool st |}.
 
@@ -917,9 +918,8 @@ Inductive shape (st : state) (o : op) : Prop :=
 | ShStore i m' v :
     target o = Some i -> step st o = (store st i m', ROk v) ->
     (wf st -> NoDup m') -> (forall a, In a m' -> known_in st a \/ adds o a) -> shape st o
-| ShSet s n v m :
-    o = SetAttr s n v -> members st s = Some m ->
-    step st o = (set_tbl st (set_attr_all m n v (st_tbl st)), ROk [1]) -> shape st o.
+| ShSet t' :
+    writes_tbl o = true -> step st o = (set_tbl st t', ROk [1]) -> shape st o.
 
 Ltac dm := match goal with |- context [match ?x with _ => _ end] => destruct x eqn:? end.
 Ltac start :=
@@ -976,7 +976,7 @@ Proof.
     destruct (all_some _ m); same.
   - (* SetAttr *)
     destruct (slot_get s (st_pool st)) as [m|] eqn:Em; [|same].
-    intros Hsr; eapply ShSet; [reflexivity|exact Em|exact Hsr].
+    intros Hsr; eapply ShSet; [reflexivity|exact Hsr].
   - (* Agg *)
     destruct (slot_get s (st_pool st)) as [m|] eqn:Em; [|same].
     destruct (all_some _ m) as [vals|]; [|same].
@@ -1032,12 +1032,20 @@ Proof.
   - (* Count *)
     destruct (slot_get s (st_pool st)); [|same]. destruct (assoc a (st_tbl st)); same.
   - destruct (slot_get s (st_pool st)); same.
+  - (* GroupCount *)
+    destruct (slot_get s (st_pool st)) as [m|]; [|same]. destruct (all_some _ m); same.
+  - (* GroupAgg *)
+    destruct (slot_get s (st_pool st)) as [m|]; [|same]. destruct (all_some _ m); [|same].
+    destruct (group_agg _ _ _ _); same.
+  - (* GroupDoSet *)
+    destruct (slot_get s (st_pool st)) as [m|]; [|same]. destruct (all_some _ m); [|same].
+    intros Hsr; eapply ShSet; [reflexivity|exact Hsr].
 Qed.
 
 (* a call that does not return normally leaves the whole state as it was *)
 Lemma step_rejected_frame st o : (forall v, snd (step st o) <> ROk v) -> fst (step st o) = st.
 Proof.
-  intros H. destruct (step_shape st o) as [Hs|i m' v _ Hs _ _|s n v m _ _ Hs].
+  intros H. destruct (step_shape st o) as [Hs|i m' v _ Hs _ _|t' _ Hs].
   - exact Hs.
   - exfalso. apply (H v). rewrite Hs. reflexivity.
   - exfalso. apply (H [1]). rewrite Hs. reflexivity.
@@ -1045,7 +1053,7 @@ Qed.
 
 Lemma step_slot_frame st o i : target o <> Some i -> members (fst (step st o)) i = members st i.
 Proof.
-  intros Ht. destruct (step_shape st o) as [Hs|j m' v Hj Hs _ _|s n v m _ _ Hs].
+  intros Ht. destruct (step_shape st o) as [Hs|j m' v Hj Hs _ _|t' _ Hs].
   - rewrite Hs. reflexivity.
   - rewrite Hs. simpl. rewrite members_store.
     destruct (i =? j) eqn:E; [|reflexivity]. apply Z.eqb_eq in E. subst. congruence.
@@ -1054,15 +1062,15 @@ Qed.
 
 Lemma step_tbl_frame st o : writes_tbl o = false -> st_tbl (fst (step st o)) = st_tbl st.
 Proof.
-  intros Hw. destruct (step_shape st o) as [Hs|j m' v Hj Hs _ _|s n v m Ho _ Hs].
+  intros Hw. destruct (step_shape st o) as [Hs|j m' v Hj Hs _ _|t' Ho Hs].
   - rewrite Hs. reflexivity.
   - rewrite Hs. reflexivity.
-  - subst o. discriminate.
+  - congruence.
 Qed.
 
 Lemma step_wf st o : wf st -> wf (fst (step st o)).
 Proof.
-  intros Hwf. destruct (step_shape st o) as [Hs|j m' v Hj Hs Hnd _|s n v m _ _ Hs].
+  intros Hwf. destruct (step_shape st o) as [Hs|j m' v Hj Hs Hnd _|t' _ Hs].
   - rewrite Hs. exact Hwf.
   - rewrite Hs. simpl. intros s m. rewrite members_store.
     destruct (s =? j); [|apply Hwf]. intros H. inversion H. subst. apply Hnd. exact Hwf.
@@ -1071,7 +1079,7 @@ Qed.
 
 Lemma step_known st o a : known_in (fst (step st o)) a -> known_in st a \/ adds o a.
 Proof.
-  intros [s [m [Hm Ha]]]. destruct (step_shape st o) as [Hs|j m' v Hj Hs _ Hk|s0 n v m0 _ _ Hs].
+  intros [s [m [Hm Ha]]]. destruct (step_shape st o) as [Hs|j m' v Hj Hs _ Hk|t' _ Hs].
   - rewrite Hs in Hm. left. exists s, m. split; assumption.
   - rewrite Hs in Hm. simpl in Hm. rewrite members_store in Hm.
     destruct (s =? j).
@@ -1568,4 +1576,164 @@ Proof.
   induction m as [|x rest IH]; simpl; [reflexivity|].
   destruct (keepb t (Some p) None x); simpl; [|exact IH].
   destruct (keepb t (Some q) None x); [f_equal|]; exact IH.
+Qed.
+
+(* --- GroupBy helper methods --- *)
+Lemma agg_apply_none f vals : agg_apply f vals = None -> vals = [].
+Proof. destruct f, vals; simpl; congruence. Qed.
+
+Definition agg_val (t : table) (n : Z) (f : aggf) (mem : list id) : Z :=
+  match all_some (fun a => attr_of t a n) mem with
+  | Some vals => match agg_apply f vals with Some v => v | None => 0 end
+  | None => 0
+  end.
+
+Lemma group_agg_ok t n f g r :
+  group_agg t n f g = inl r ->
+  r = flat_map (fun e => [fst e; agg_val t n f (snd e)]) g /\
+  Forall (fun e => exists vals v, all_some (fun a => attr_of t a n) (snd e) = Some vals /\
+                                  agg_apply f vals = Some v) g.
+Proof.
+  revert r. induction g as [|[k mem] rest IH]; intros r H; simpl in H.
+  - inversion H. split; [reflexivity|constructor].
+  - destruct (all_some (fun a => attr_of t a n) mem) as [vals|] eqn:Ev; [|discriminate].
+    destruct (agg_apply f vals) as [v|] eqn:Ea; [|discriminate].
+    destruct (group_agg t n f rest) as [r'|e] eqn:Er; [|discriminate].
+    inversion H. subst r. destruct (IH _ eq_refl) as [Hr Hall]. split.
+    + simpl. unfold agg_val at 1. simpl snd. rewrite Ev, Ea, <- Hr. reflexivity.
+    + constructor; [exists vals, v; split; assumption|exact Hall].
+Qed.
+
+(* min / max over a group never meet an empty list: GroupBy.agg cannot raise ValueError *)
+Lemma group_agg_no_value_error t n f g :
+  Forall (fun e => snd e <> []) g -> group_agg t n f g <> inr E_VALUE.
+Proof.
+  induction g as [|[k mem] rest IH]; intros Hne; simpl; [discriminate|].
+  inversion Hne as [|? ? Hm Hr]; subst. simpl in Hm.
+  destruct (all_some (fun a => attr_of t a n) mem) as [vals|] eqn:Ev; [|discriminate].
+  destruct (agg_apply f vals) as [v|] eqn:Ea.
+  - specialize (IH Hr). destruct (group_agg t n f rest) as [r'|e]; [discriminate|].
+    intros H. apply IH. exact H.
+  - apply agg_apply_none in Ea. subst vals. apply all_some_length in Ev.
+    destruct mem; [congruence|discriminate].
+Qed.
+
+Lemma group_agg_attr_error t n f g :
+  group_agg t n f g = inr E_ATTR ->
+  exists e a, In e g /\ In a (snd e) /\ attr_of t a n = None.
+Proof.
+  induction g as [|[k mem] rest IH]; simpl; [discriminate|].
+  destruct (all_some (fun a => attr_of t a n) mem) as [vals|] eqn:Ev.
+  - destruct (agg_apply f vals) as [v|]; [|discriminate].
+    destruct (group_agg t n f rest) as [r'|e] eqn:Er; [discriminate|].
+    intros H. inversion H. subst e. destruct (IH eq_refl) as [e [a [He [Ha Hn]]]].
+    exists e, a. split; [right; exact He|split; assumption].
+  - intros _. apply all_some_none in Ev. destruct Ev as [a [Ha Hn]].
+    exists (k, mem), a. split; [left; reflexivity|split; assumption].
+Qed.
+
+Lemma assoc_set_idem {V} k (v : V) l : assoc_set k v (assoc_set k v l) = assoc_set k v l.
+Proof.
+  induction l as [|[k0 v0] t IH]; simpl; [rewrite Z.eqb_refl; reflexivity|].
+  destruct (k =? k0) eqn:E; simpl; rewrite E; [reflexivity|]. f_equal. exact IH.
+Qed.
+
+Lemma memb_app a m1 m2 : memb Z.eqb a (m1 ++ m2) = memb Z.eqb a m1 || memb Z.eqb a m2.
+Proof. unfold memb. apply existsb_app. Qed.
+
+Lemma set_attr_all_app m1 m2 n v t :
+  set_attr_all m2 n v (set_attr_all m1 n v t) = set_attr_all (m1 ++ m2) n v t.
+Proof.
+  unfold set_attr_all. rewrite map_map. apply map_ext. intros [a ag]. simpl fst. simpl snd.
+  rewrite memb_app. destruct (memb Z.eqb a m1); simpl fst; simpl snd.
+  - simpl orb. destruct (memb Z.eqb a m2); [|reflexivity].
+    unfold set_attr_agent. simpl. rewrite assoc_set_idem. reflexivity.
+  - simpl orb. reflexivity.
+Qed.
+
+Lemma set_attr_all_nil n v t : set_attr_all [] n v t = t.
+Proof. unfold set_attr_all. rewrite <- (map_id t) at 2. apply map_ext. intros [a ag]. reflexivity. Qed.
+
+Lemma set_attr_all_ext m m' n v t :
+  (forall a, In a m <-> In a m') -> set_attr_all m n v t = set_attr_all m' n v t.
+Proof.
+  intros H. unfold set_attr_all. apply map_ext. intros [a ag]. simpl fst.
+  assert (memb Z.eqb a m = memb Z.eqb a m') as ->; [|reflexivity].
+  destruct (memb Z.eqb a m) eqn:E1, (memb Z.eqb a m') eqn:E2; try reflexivity.
+  - apply zmemb_In in E1. apply H in E1. apply zmemb_In in E1. congruence.
+  - apply zmemb_In in E2. apply H in E2. apply zmemb_In in E2. congruence.
+Qed.
+
+Lemma group_do_set_concat n v g : forall t,
+  group_do_set n v g t = set_attr_all (concat (map snd g)) n v t.
+Proof.
+  unfold group_do_set. induction g as [|e rest IH]; intros t; simpl.
+  - symmetry. apply set_attr_all_nil.
+  - rewrite IH, set_attr_all_app. reflexivity.
+Qed.
+
+(* gb.do("set", name, v) over the groups = s.set(name, v) on the set *)
+Lemma step_group_do_set st s k n v m ks :
+  members st s = Some m -> all_some (eval_key (st_tbl st) k) m = Some ks ->
+  step st (GroupDoSet s k n v) = step st (SetAttr s n v).
+Proof.
+  intros Hm Hk. rewrite (step_set _ _ _ _ _ Hm). unfold members in Hm.
+  unfold step. cbv zeta. rewrite Hm, Hk. unfold set_tbl. f_equal. f_equal.
+  rewrite group_do_set_concat. apply set_attr_all_ext. intros a.
+  destruct (groupby_spec (key_or0 (st_tbl st) k) m) as [_ [_ [_ [_ Hp]]]].
+  split; intros H; eapply Permutation_in; try eassumption. symmetry. exact Hp.
+Qed.
+
+Lemma step_group_count st s k m ks :
+  members st s = Some m -> all_some (eval_key (st_tbl st) k) m = Some ks ->
+  let kf := key_or0 (st_tbl st) k in
+  step st (GroupCount s k) =
+  (st, ROk (zlen (groupby_members kf m) ::
+            flat_map (fun e => [fst e; zlen (snd e)]) (groupby_members kf m))).
+Proof.
+  intros Hm Hk kf. unfold members in Hm. unfold step. cbv zeta. rewrite Hm, Hk. reflexivity.
+Qed.
+
+Lemma step_group_agg st s k n f m ks :
+  members st s = Some m -> all_some (eval_key (st_tbl st) k) m = Some ks ->
+  let g := groupby_members (key_or0 (st_tbl st) k) m in
+  (* never ValueError; AttributeError only if a member lacks the attribute; otherwise one value
+     per group, in group order *)
+  snd (step st (GroupAgg s k n f)) <> RErr E_VALUE /\
+  (snd (step st (GroupAgg s k n f)) = RErr E_ATTR ->
+     exists a, In a m /\ attr_of (st_tbl st) a n = None) /\
+  ((forall a, In a m -> attr_of (st_tbl st) a n <> None) ->
+     step st (GroupAgg s k n f) =
+     (st, ROk (flat_map (fun e => [fst e; agg_val (st_tbl st) n f (snd e)]) g))).
+Proof.
+  intros Hm Hk g. unfold members in Hm.
+  assert (step st (GroupAgg s k n f) =
+          match group_agg (st_tbl st) n f g with inl r => (st, ROk r) | inr e => (st, RErr e) end) as Hs.
+  { unfold step. cbv zeta. rewrite Hm, Hk. reflexivity. }
+  destruct (groupby_spec (key_or0 (st_tbl st) k) m) as [_ [_ [Hg [_ Hp]]]]. fold g in Hg, Hp.
+  assert (Forall (fun e => snd e <> []) g) as Hne.
+  { apply Forall_forall. intros [k0 mem] Hin. simpl. apply (Hg _ _ Hin). }
+  assert (forall e a, In e g -> In a (snd e) -> In a m) as Hsub.
+  { intros [k0 mem] a Hin Ha. simpl in Ha. destruct (Hg _ _ Hin) as [-> _]. apply filter_In in Ha. tauto. }
+  pose proof (group_agg_no_value_error (st_tbl st) n f g Hne) as Hnv.
+  split; [|split].
+  - rewrite Hs. destruct (group_agg (st_tbl st) n f g) as [r|e]; simpl; [discriminate|].
+    intros H. inversion H. subst e. congruence.
+  - rewrite Hs. destruct (group_agg (st_tbl st) n f g) as [r|e] eqn:Eg; simpl; [discriminate|].
+    intros H. inversion H. subst e. destruct (group_agg_attr_error _ _ _ _ Eg) as [e [a [He [Ha Hn]]]].
+    exists a. split; [eapply Hsub; eassumption|exact Hn].
+  - intros Hall. rewrite Hs. destruct (group_agg (st_tbl st) n f g) as [r|e] eqn:Eg.
+    + apply group_agg_ok in Eg. destruct Eg as [-> _]. reflexivity.
+    + exfalso. destruct (Z.eq_dec e E_ATTR) as [->|Hne'].
+      * destruct (group_agg_attr_error _ _ _ _ Eg) as [e' [a [He [Ha Hn]]]].
+        apply (Hall a); [eapply Hsub; eassumption|exact Hn].
+      * (* e is E_ATTR or E_VALUE by construction *)
+        assert (e = E_ATTR \/ e = E_VALUE) as [He|He].
+        { clear -Eg. revert e Eg. induction g as [|[k0 mem] rest IH]; intros e Eg; simpl in Eg; [discriminate|].
+          destruct (all_some (fun a => attr_of (st_tbl st) a n) mem); [|inversion Eg; left; reflexivity].
+          destruct (agg_apply f l); [|inversion Eg; right; reflexivity].
+          destruct (group_agg (st_tbl st) n f rest) as [r'|e'] eqn:Er; [discriminate|].
+          inversion Eg. subst. apply IH. reflexivity. }
+        -- congruence.
+        -- subst e. congruence.
 Qed.
